@@ -316,7 +316,9 @@ void await_future(Fut&& fut, const ctl_ptr& c, rng& r, stats_t& st, bool scope_m
     if (cancel && !leaf_done && !never_started) {
       ++st.fut_cancelled_done;
       // a result already available when the future was started must be delivered even if stop was requested
-      if (result_ready_before && (leaf_oc == OC_VALUE || leaf_oc == OC_ERROR) && c->cseq.load() < start_call)
+      // (v1: if the whole scope was told to stop first, its attach wrapper legitimately turns the future into done)
+      if (!scope_stopped_first && result_ready_before && (leaf_oc == OC_VALUE || leaf_oc == OC_ERROR) &&
+          c->cseq.load() < start_call)
         violation("C09:future:available-result-dropped-on-cancel",
                   "leaf %d had completed (outcome %d) before the future was started, yet the future completed with done",
                   c->id, leaf_oc);
